@@ -83,7 +83,7 @@ def main():
     hook_commits = [l.split()[0] for l in hooks if "verif hook" in l]
     m = {
         "version": 1,
-        "setup_cmd": "cd /verif && export GOFLAGS=-mod=mod GOPROXY=off GOSUMDB=off GOTOOLCHAIN=local && go test -c -tags verif -o bin/props.test ./props && go test -tags verif -count=1 ./ref && go test -tags verif -count=1 -run 'TestEngineAgreesWithGnark' ./eng -rapid.checks=3000 -rapid.nofailfile",
+        "setup_cmd": "cd /verif && export GOFLAGS=-mod=mod GOPROXY=off GOSUMDB=off GOTOOLCHAIN=local && go test -c -tags verif -o bin/props.test ./props && go test -tags verif -count=1 ./ref && go test -tags verif -count=1 -run 'TestEngineAgreesWithGnark|TestMonitorBoundsDominateBruteForce' ./eng -rapid.checks=3000 -rapid.nofailfile",
         "hooks": {
             "guard": "verif",
             "enable": "go build tag: every check builds /repo/gnark-plonky2-verifier with `-tags verif` (files *_verif.go guarded by //go:build verif)",
